@@ -75,6 +75,25 @@ def make_replayer():
     return replayer
 
 
+def _demote_form(report):
+    """Obligations of the structural contracts that fail because the code
+    is not of the documented FORM (goal constant false, no counter-model) are
+    violations only with a failing input from the battery; otherwise they are
+    reported UNDECIDED: an equivalent rewrite must not raise an alarm.
+    Obligations that z3 refutes with values stay violations."""
+    from engine.checks import py_common
+    from contracts.py import (aslinearineq_spec, function_index_spec,
+                              lp_assembly_spec, objective_spec,
+                              relational_spec)
+    form = set()
+    for m_ in (aslinearineq_spec, function_index_spec, lp_assembly_spec,
+               objective_spec, relational_spec):
+        form |= m_.FORM_REFUTED
+    py_common.demote_unconfirmed_shape_checks(
+        report, lambda ob: ob.text in form,
+        'the code is not of the form the contract documents')
+
+
 def run(report, tier, seed):
     from contracts.py import lp_assembly_spec
     lp_assembly_spec.feed(report, tier)
@@ -123,6 +142,7 @@ def run(report, tier, seed):
     except KeyError as e:
         report.error('function under contract no longer exists: %s' % e)
     report.replayer = make_replayer()
+    _demote_form(report)
     from engine.checks import py_common
     py_common.demote_unconfirmed_shape_checks(
         report, lambda ob: 'syntactic' in (ob.by or []) or
